@@ -789,6 +789,8 @@ def rule_helper_loop(ctx, rep):
 
 META["explanation"] += " " + 'Also (rounds 10-11): publish => wake on every path of _call_rcu (RT flag excepted), callbacks run on a registered (qsbr: online) helper, a helper is freed without hand-over only along an observed-empty edge.'
 
+META["explanation"] += " " + "Also (round 12 and fifth reading): the default helper is never stopped by call_rcu_data_free and exists before the hand-over splice; per-CPU slots are written in bounds and never over a live helper; the helper's futex use is confined to non-RT helpers; call_rcu_data_init initialises everything the helper reads (queue tail -> head, lock) before pthread_create."
+
 RULES = [
     ("C03.helper", rule_helper_loop),
     ("C03.init", rule_init_before_thread),
